@@ -102,7 +102,7 @@ def c13_extra(valid, rnd):
 
 
 def transport_pairs(valids, rnd, tier):
-    """C02: a LARGE rules reply (2500 rules, > 100 kB: more than one block of a bzip2 stream written with 100 kB blocks)
+    """C02: a LARGE rules reply (2500 rules, > 150 kB: more than one block of a bzip2 stream written with 100 kB blocks)
     once as an uncompressed Source split and once as a bzip2-compressed one (levels 1 and 9), the rest of the exchange
     unchanged: the response must not depend on the transport."""
     import bz2, zlib
@@ -119,7 +119,8 @@ def transport_pairs(valids, rnd, tier):
         start = seg[0] + seg[1]
         n = 2500
         payload = b"\xff\xff\xff\xffE" + n.to_bytes(2, "little") + b"".join(
-            f"sv_rule_{k:05d}".encode() + b"\0" + f"value {k * 7919 % 10007} of rule {k}".encode() + b"\0" for k in range(n))
+            f"sv_rule_{k:05d}".encode() + b"\0" + f"value {k * 7919 % 10007} of rule {k} ".encode() + bytes(48 + (k * j * 31 + j) % 75 for j in range(40)) + b"\0" for k in range(n))
+        assert len(payload) > 150_000
 
         def split(body, sid, compressed):
             chunks = [body[i:i + 1200] for i in range(0, len(body), 1200)]
